@@ -54,6 +54,13 @@ class C29(core.Check):
                 cs.append(("x", "../..", temp, True, filed, ext, "text", [], C))          # F43 via base, clean tail
                 cs.append(("../x", "", temp, False, filed, ext, "text", [], C))           # leaves the tail but not the head
                 cs.append(("a/../b", "", temp, False, filed, ext, "text", [], C))
+        for temp, clean, filed, ext in ((False, False, False, False), (True, False, True, False), (False, True, False, True), (True, True, True, True)):
+            # '..' not in first position: down, then further up
+            cs.append(("logs/../../../stolen", "", temp, clean, filed, ext, "text", [], C))
+            cs.append(("../victim", "conf/../..", temp, clean, filed, ext, "text", [], C))
+            cs.append(("a/./../../b", "", temp, clean, filed, ext, "text", [], C))
+            cs.append(("x", "a/b/../../../..", temp, clean, filed, ext, "text", [], C))
+            cs.append(("a/../b/../c", "d/..", temp, clean, filed, ext, "text", [], C))          # cancels out: accepted
         cs.append(("..", "", False, False, False, False, "text", [], C))
         cs.append(("../..", "", True, True, False, False, "text", [], C))
         cs.append((".", "", False, False, False, False, "text", [("hio", "d"), ("hio/keep", "f")], C))
